@@ -599,7 +599,8 @@ example : FrameOK { name := "data".toList, title := "T <&>".toList, idString := 
   frameOK_plain _ rfl rfl rfl (by decide) (by decide) ⟨"data".toList, by decide⟩ (by decide) (by decide) (by decide) (by decide)
     (by decide) (by decide) (by decide) (by decide) (by decide) (by decide) (by decide)
 
--- the guard is needed: each known finding violates it, and the oracle fails on the model's own output
+-- history: the shapes of the former findings F2, F2b, F3, F4 violate the frame guard, and without the validation
+-- pass (`validDoc`, C01Valid.lean, which rejects each of them now) the oracle fails on the assembled document
 /-- F2: `namespaces = "1x=http://a"` (prefix not an NCName) -/
 def exF2 : Fields := { name := "data".toList, title := "t".toList, idString := "d".toList, namespaces := "1x=http://a".toList }
 example : FrameOK exF2 = false := by decide +kernel
